@@ -161,17 +161,23 @@ def run_builder_check(pid, gen_cases, oracle_fn, fields=None, truncate_at_leak=T
             # sites and THIS property breaks from there on, that is the same recorded defect seen through this property.
             later = [f for f in oracle_fn(dp, cmds, steps, None) if f[0] >= upto]
             if later:
-                site = steps[upto].get("leak")
-                if cmds[upto][0] == "polyline" and steps[upto]["exc"] == "ValueErr":
-                    # a polyline is a sequence of moves: the vertex that is rejected leaks exactly like a single move does
-                    lk = leak_of(steps[upto - 1]["snap"] if upto else initial_snapshot(), steps[upto])
-                    if lk and set(lk[0]) <= {"pos", "params", "sparams", "feed", "power"}:
-                        site = ("move|ValueErr|F/S-words-committed-before-rejection" if set(lk[0]) <= {"feed", "power"}
-                                else "move|ValueErr|position/parameters-committed-before-axes-bounds-rejection")
-                c05_known = any(k.get("property") == "C05" and k.get("status") == "known" and k.get("signature") == site for k in load_known())
                 idx, msg, _ = later[0]
+                known_c05 = {k.get("signature") for k in load_known() if k.get("property") == "C05" and k.get("status") == "known"}
+                sites = []
+                for j in range(upto, idx + 1):
+                    site = steps[j].get("leak")
+                    if not site:
+                        continue
+                    if cmds[j][0] == "polyline" and steps[j]["exc"] == "ValueErr":
+                        # a polyline is a sequence of moves: the vertices before the rejected one were emitted and tracked
+                        # (no leak), the rejected vertex leaks exactly like a single move does
+                        lk = leak_of(steps[j - 1]["snap"] if j else initial_snapshot(), steps[j])
+                        if lk and set(lk[0]) <= {"pos", "spos", "params", "sparams", "feed", "power", "halt"}:
+                            site = "move|ValueErr|position/parameters-committed-before-axes-bounds-rejection"
+                    sites.append(site)
+                c05_known = bool(sites) and all(x in known_c05 for x in sites)
                 after_leak_seen[0] += 1
-                fails = list(fails) + [(idx, "after the rejected, non-atomic call %r (C05 site %s): %s" % (cmd_json(cmds[upto]), site, msg),
+                fails = list(fails) + [(idx, "after the rejected, non-atomic call(s) at C05 site(s) %s: %s" % (sorted(set(sites)), msg),
                                         after_leak_signature if c05_known else None)]
         seen = set()
         for (idx, msg, sig) in fails:
